@@ -564,8 +564,9 @@ Definition filter_test (x : nat) (c : expr) : option (option nat) :=
   | _ => None
   end.
 
-(* a compound body statement is printed without its inner indentation by the template back end; the
-   unparsable text is rolled back (harmless; C14's territory): the rule is silent *)
+(* before 295ec41 a compound body statement was pasted without its inner indentation by the template back
+   end and the unparsable text rolled back (the rule was silent on it: `rw_filter_old`); the repaired
+   back end indents every line of the statement, so the rule now fires on compound bodies too *)
 Definition simple_stmt (s : stmt) : bool :=
   match s with SIf _ _ _ | SFor _ _ _ => false | _ => true end.
 
@@ -583,9 +584,18 @@ Definition rw_filter (s : stmt) : option stmt :=
       match filter_shape body with
       | Some (c, s1, _) =>
           match filter_test x c with
-          | Some f => if simple_stmt s1 then Some (SFor (TName x) (IFilter f e) [s1]) else None
+          | Some f => Some (SFor (TName x) (IFilter f e) [s1])
           | None => None
           end
+      | None => None
+      end
+  | _ => None
+  end.
+Definition rw_filter_old (s : stmt) : option stmt :=
+  match s with
+  | SFor _ _ body =>
+      match filter_shape body with
+      | Some (_, s1, _) => if simple_stmt s1 then rw_filter s else None
       | None => None
       end
   | _ => None
